@@ -366,6 +366,9 @@ def c04_5(ctx):
         pad = [s for s in ast.walk(fn.node) if isinstance(s, ast.Assign) and U(s.targets[0]) == 'args' and 'args[3:]' in U(s.value)]
         if not pad or '[0, 0, 0]' not in U(pad[0].value):
             ctx.fail(fn, fn.node, 'missing h/m/s arguments are no longer padded with zeros after args[3:]')
+        elif N(pad[0].value) != NS('[int(a) for a in args[3:]] + [0, 0, 0]'):
+            ctx.fail(fn, pad[0], 'the time parts are `%s`, expected [int(a) for a in args[3:]] + [0, 0, 0]: every given part keeps its POSITION (a zero hour is a part, not a missing one)' % U(pad[0].value),
+                     witness='dt(2020, 1, 1, 0, 20, 30) is 00:20:30')
     # ymd
     fn = ctx.repo.fn('_dates:ymd')
     ctx.count(1, fn.where())
@@ -476,3 +479,26 @@ def c04_9(ctx):
         if got != want[:len(got)] or len(got) < 7:
             ctx.fail(f, c, 'the rebuilt date is dt(%s); expected dt(%s): day and month exchanged, the time of day untouched and complete' % (', '.join(got), ', '.join(want)),
                      witness="dt('03/04/2021 10:30') is 3 April 2021 10:30")
+
+
+@obligation('C04.10', 'TABLES (regex anchors)', 'module _dates: the patterns that route a string before dateutil sees it',
+            'every spelling reaches the same datetime: the shape tests that short-circuit parsing (yyyy-mm, yyyy-mmm: "first of that month") must match the WHOLE string - a pattern that is only anchored at the start also swallows yyyy-mmm-dd and resets the day and time',
+            axioms=())
+def c04_10(ctx):
+    fn = ctx.repo.fn('_dates:uk2dt')
+    for name, both in (('yyyymm', True), ('yyyymmm', True), ('ambiguity', False), ('period', False)):
+        m, v = ctx.repo.module_value('_dates', name)
+        ctx.count(1, '_dates:%s' % name)
+        if not (isinstance(v, ast.Call) and call_name(v) == 'compile' and v.args):
+            raise AnalysisError('_dates.%s is not a re.compile(...)' % name)
+        a = v.args[0]
+        if isinstance(a, ast.BinOp) and isinstance(a.op, ast.Mod):
+            a = a.left
+        if not (isinstance(a, ast.Constant) and isinstance(a.value, str)):
+            raise AnalysisError('_dates.%s pattern is not a string literal' % name)
+        pat = a.value
+        if not pat.startswith('^'):
+            ctx.fail(fn, fn.node, 'pattern %s = %r is not anchored at the start' % (name, pat), stmt='%s = %s' % (name, pat))
+        if both and not pat.endswith('$'):
+            ctx.fail(fn, fn.node, 'pattern %s = %r is not anchored at the end: it also matches longer strings that merely begin like a year-month (a full year-month-day date is then reset to the first of the month at midnight)' % (name, pat),
+                     stmt='%s = %s' % (name, pat), witness="dt('2021-Dec-05')")
